@@ -195,7 +195,7 @@ def run_shape(item, ob, mode):
             ob.witness(r.variant)
         else:
             # payload copies: Rc::make_mut on a shared allocation, or an explicit clone of a Vec (cloning the assigned value itself is not one)
-            def is_copy(l): return l[0] == 'make_mut_clone' or (l[0] == 'deep_clone' and str(l[1]).startswith('Vec'))
+            def is_copy(l): return l[0] in ('make_mut_clone', 'realloc') or (l[0] == 'deep_clone' and str(l[1]).startswith('Vec'))
             clones1 = [l for l in d['log1'] if is_copy(l)]
             clones2 = [l for l in d['log2'] if is_copy(l)]
             # path copying: copying a shared outer level makes the levels below it shared too, so an outer alias allows one clone
@@ -203,7 +203,8 @@ def run_shape(item, ob, mode):
             shared_levels = {'none': 0, 'outer': depth, 'inner': 1, 'both': depth}[alias]
             goal1 = len(clones1) <= shared_levels
             if alias == 'none': goal1 = goal1 and (d['id1'] == d['id0'])
-            trep = (lambda m: timing_replay(op, shape, alias))
+            has_realloc = any(l[0] == 'realloc' for l in clones1 + clones2)
+            trep = (lambda m: timing_replay(op, shape, alias, realloc=has_realloc))
             ob.check(name + f' clones on first step <= {shared_levels}', pc, z3.BoolVal(goal1), replay=trep, cls=f'C02/{op}/extra-copy', sample=f'clone log {clones1}')
             if d['r2'] is not None:
                 ob.check(name + ' no clone on the repeated step', pc, z3.BoolVal(len(clones2) == 0), replay=trep, cls=f'C02/{op}/copy-after-unshare', sample='after the one copy the collection is unshared and mutated in place')
@@ -221,8 +222,14 @@ def items_for(tier, seed):
                 for reps in repc: items.append((op, shape, alias, reps + (('Small',) if depth == 1 else ())))
     rnd.shuffle(items); return items
 
-def timing_replay(op, shape, alias):
+def timing_replay(op, shape, alias, realloc=False):
     """scaling measurement that exhibits a hidden copy per mutation step (see lib.common.finish)"""
+    if realloc and op in ('try_pop', 'try_remove_index'):
+        # a buffer that is shrunk on pop: a stack built by appends to just above a power of two, then pop / append in turn, reallocates on every step
+        rm = 'pop x' if op == 'try_pop' else 'remove x[0-1]'
+        def osc(N, K): return f'x := []; for (i <- 0 til {N}) x append= i; for (i <- 0 til {K}) ({rm}; x append= 0); len(x)'
+        # measured in bytes requested from the allocator: a large realloc can be an mremap, which wall time does not show
+        return {'timing': {'small': osc(1025, 3000), 'base': osc(131073, 0), 'big': osc(131073, 3000), 'ratio': 5, 'metric': 'alloc'}, 'program': None}
     def prog(N, K):
         al = 'y := x; ' if alias != 'none' else ''
         if op == 'try_pop': return f'x := (0 til {N + K}) then list; {al}for (i <- 0 til {K}) pop x; len(x)'
@@ -235,7 +242,8 @@ def timing_replay(op, shape, alias):
         else: body = 'every x[0:1] = 7'
         return mk + al + f'for (i <- 0 til {K}) {body}; len(x)'
     K = 6000
-    return {'timing': {'small': prog(10, K), 'base': prog(30000, 0), 'big': prog(30000, K), 'ratio': 5}, 'program': None}
+    # measured in bytes requested from the allocator (deterministic; wall time is load-sensitive and blind to mremap-style reallocation)
+    return {'timing': {'small': prog(10, K), 'base': prog(30000, 0), 'big': prog(30000, K), 'ratio': 5, 'metric': 'alloc'}, 'program': None}
 
 def native_cow_probe(ob_data):
     """C02 is about allocation behaviour, which nlrun cannot observe from the surface; counterexamples of C02 are structural
